@@ -478,6 +478,8 @@ def run_unit(desc):
     from .classref import subscribe_lock_discipline
     from .loader import Loader as _Loader
     rep["results"] = rep["results"] + subscribe_lock_discipline(SimpleNamespace(file=RFILE, cls="ReplaySubject", uid=f"{RFILE}::ReplaySubject"), _Loader())
+    from .classref import state_lock_discipline
+    rep["results"] = rep["results"] + state_lock_discipline(SimpleNamespace(file=RFILE, cls="ReplaySubject", uid=f"{RFILE}::ReplaySubject"), _Loader())
     if desc.get("tier") == "thorough" and not h.unsupported:
         mf = must_fail()
         rep["must_fail"] = dict(mf, unit=rep["unit"])
